@@ -533,14 +533,32 @@ package runtime
 //@   requires arg0.goFunctionCallDepth <= maxGoFunctionCallDepth
 //@   modifies everything()
 //@   exits any
+//@   ensures arg0.goFunctionCallDepth == old(arg0.goFunctionCallDepth)   // calls into the runtime are balanced (this is the property proved for RunInThread below)
+
+// Hooks run Lua code through the same gate: balanced as well (assumed).
+//@ func (*DebugHooks).triggerReturn
+//@   trusted
+//@   modifies everything()
+//@   ensures t.goFunctionCallDepth == old(t.goFunctionCallDepth)
+
+// Pool releases only touch the pool and the released object (C14 verifies them).
+//@ func (*valuePool).release
+//@   prop C14
+//@   trusted
+//@   modifies all(v), heap(valuePool)
+//@ func (*goContPool).release
+//@   prop C14
+//@   trusted
+//@   modifies all(c), heap(goContPool)
 
 //@ func (*GoCont).RunInThread
-//@   prop C08 C04
+//@   prop C08 C04 C11
 //@   arith bv
 //@   requires c != nil && t != nil && t.Runtime != nil && c.GoFunction != nil
 //@   modifies everything()
 //@   exits any
 //@   ensures old(t.requiredFlags) &^ old(c.safetyFlags) != 0 ==> err != nil && next == nil
+//@   ensures t.goFunctionCallDepth == old(t.goFunctionCallDepth)   // on every return, including the depth-limit error (C11: the runtime stays usable after a caught error)
 
 // Declaring compliance only ever adds defined flags.
 //@ func (*GoFunction).SolemnlyDeclareCompliance
@@ -968,3 +986,50 @@ package runtime
 //@   requires t != nil && c != nil
 //@   exits any
 //@   assert_before_call cleanupCloseStack: typeis($c, *LuaCont) && asType($c, *LuaCont) == c && $h == c.closeStackBase + int(opcode.GetClStackOffset()) && $err == nil
+
+// ---------------------------------------------------------------------------
+// C11: error values travel intact
+// ---------------------------------------------------------------------------
+
+//@ func NewError
+//@   prop C11
+//@   arith int
+//@   modifies nothing
+//@   ensures result != nil && fresh(result) && result.message == message && !result.handled && result.lineno == 0
+
+//@ func newHandledError
+//@   prop C11
+//@   arith int
+//@   modifies nothing
+//@   ensures result != nil && fresh(result) && result.message == message && result.handled
+
+//@ func (*Error).Value
+//@   prop C11
+//@   arith int
+//@   modifies nothing
+//@   ensures e == nil ==> result == NilValue
+//@   ensures e != nil ==> result == e.message
+
+//@ func (*Error).Handled
+//@   prop C11
+//@   arith int
+//@   requires e != nil
+//@   modifies nothing
+//@   ensures result == e.handled
+
+// Adding position information never changes a message that is not a string
+// (numbers, tables, nil ... are delivered as they are), never touches an error
+// that already has a position or has been handled, and never modifies the
+// original error object.
+//@ func (*Error).AddContext
+//@   prop C11
+//@   arith int
+//@   norte
+//@   requires e != nil
+//@   modifies everything()
+//@   exits any
+//@   loop 1: invariant true
+//@   loop 2: invariant true
+//@   ensures old(e.lineno) != 0 || old(e.handled) ==> result == e
+//@   ensures !typeis(old(e.message).iface, string) ==> result.message == old(e.message)
+//@   ensures !(old(e.lineno) != 0 || old(e.handled)) ==> fresh(result) && !result.handled && result.lineno != 0
